@@ -396,6 +396,9 @@ class SymEval:
             sub.run()
         except AnalysisError:
             return None
+        for g, r in sub.raises:
+            # a raise inside an inlined helper is a raise of the caller under the caller's path condition
+            self.raises.append((S.eand(self.guard(), g), r))
         if not sub.returns:
             return S.NONE
         # fold guarded returns into a conditional expression
@@ -492,6 +495,9 @@ class SymEval:
     def s_Expr(self, st):
         if isinstance(st.value, ast.Call):
             self.calls.append((st.value, self.guard(), dict(self.env)))
+            if self.inline and isinstance(st.value.func, ast.Name):
+                # a bare call statement to a helper that was asked to be inlined (validation factored out)
+                self.expr(st.value)
             # mutating method calls on tracked containers
             f = st.value.func
             if isinstance(f, ast.Attribute) and f.attr in ("append", "extend", "fill", "pop", "update", "sort", "insert"):
